@@ -146,4 +146,7 @@ func init() {
 		"		return op.Leaseholder > dig.Leaseholder, nil", "		return op.Leaseholder < dig.Leaseholder, nil", "C06.R7.rule")
 	mut("C13", "an equal version is accepted again", "aspen/internal/kv/filter_persist.go",
 		"		return op.Leaseholder > dig.Leaseholder, nil", "		return op.Leaseholder >= dig.Leaseholder, nil", "C13.R4.rule")
+
+	mut("C06", "a failed digest write is ignored for gossiped operations", "aspen/internal/kv/filter_persist.go",
+		"			if err := op.Digest().apply(ctx, txn); err != nil {\n				return err\n			}", "			_ = op.Digest().apply(ctx, txn)", "C06.ERR")
 }
